@@ -130,6 +130,18 @@ theorem mul_correct_int (s : ℕ) (x y : ℤ) (P : curve.Point)
     mul K (s : ℤ) (x, y) = coords (s • P) :=
   mul_rep s hx hy
 
+/-- the same for a non-negative `big.Int` scalar -/
+theorem mul_correct_nonneg (s : ℤ) (hs : 0 ≤ s) (P : curve.Point) :
+    mul K s (coords P) = coords (s.toNat • P) :=
+  mul_coords_int hs P
+
+/-- the model agrees with the independent affine reference oracle `I3.Ed.smul` (binary recursion
+with one Fermat inversion per coordinate and step) used by the correspondence driver -/
+theorem mul_eq_oracle (s : ℕ) (P : curve.Point) :
+    mul K (s : ℤ) (coords P) =
+      (((Ed.smul s (P.x.val, P.y.val)).1 : ℤ), ((Ed.smul s (P.x.val, P.y.val)).2 : ℤ)) :=
+  mul_eq_ed_smul s P
+
 /-- `0 * P` is the identity and `(s+1) * P = s * P + P`: `s * P` is `P` added `s` times -/
 theorem mul_zero_succ (s : ℕ) (P : curve.Point) :
     mul K 0 (coords P) = (0, 1) ∧
